@@ -59,6 +59,12 @@ META = {
         level_note="The sync entry point is exercised by the C14 check.",
         technique="stateful property-based testing (rapid), snapshot scan invariant",
     ),
+    "C17": dict(
+        level_text="Sequential call sequences are model-checked step by step against a map (full shrinking, fresh cache per case); concurrent batches on shared addresses are compared with {saves} - {removals} at quiescence over many rounds and GOMAXPROCS settings.",
+        design_ref="DESIGN.md §4 C17",
+        level_note="Eviction and the 5-minute expiry are out of reach (bigcache reads the wall clock). Concurrent clause is sampling.",
+        technique="stateful model-based property testing (rapid) + randomized concurrent batches against a map model",
+    ),
 }
 
 def _na():
